@@ -244,5 +244,9 @@ def check(ctx):
         ctx.ob("returns-text", gs, r.ast, okr, "returns the joined stub text" if okr else "generate_stub does not return the stub text", node=r, nontrivial=False)
     # class header names the class
     hdr = any(isinstance(x, ast.BinOp) and isinstance(x.op, ast.Mod) and isinstance(x.left, ast.Constant) and isinstance(x.left.value, str)
-              and x.left.value.startswith("class %s(") for x in ast.walk(gs.node))
+              and x.left.value.startswith("class %s(") for x in ast.walk(gs.node)) or \
+        any(isinstance(x, ast.JoinedStr) and x.values and isinstance(x.values[0], ast.Constant) and str(x.values[0].value).startswith("class ")
+            for x in ast.walk(gs.node)) or \
+        any(isinstance(x, ast.Call) and isinstance(x.func, ast.Attribute) and x.func.attr == "format" and isinstance(x.func.value, ast.Constant)
+            and str(x.func.value.value).startswith("class ") for x in ast.walk(gs.node))
     ctx.ob("declares-one-class", gs, "class %s(...):", hdr, "declares the class under the requested name" if hdr else "the class header is not emitted")
